@@ -270,11 +270,42 @@ impl C05 {
     let n_phases = 1 + rng.usize_below(4);
     let mut phases = vec![];
     let mut calls_so_far: Vec<ReplCall> = vec![];
-    for _ in 0..n_phases {
-      let n_calls = if calls_so_far.len() >= 12 { 0 } else { rng.usize_below(5) };
+    // swarm knob: 12% of the runs use many replacements on very few distinct
+    // keys (sorting algorithms switch strategy with length; stability and the
+    // enforce tie-break only show with many colliding keys)
+    let many = rng.chance(120);
+    let key_pool: Vec<(u32, u32)> = {
+      let b = crate::gen::legal_positions(&text);
+      (0..1 + rng.usize_below(3))
+        .map(|_| {
+          let a = *rng.pick(&b);
+          let z = if rng.chance(600) { a } else { *rng.pick(&b) };
+          (a.min(z), a.max(z))
+        })
+        .collect()
+    };
+    let many_budget = 21 + rng.usize_below(28);
+    for ph in 0..n_phases {
+      let n_calls = if many {
+        if ph == 0 { many_budget * 2 / 3 } else if ph == 1 { many_budget - many_budget * 2 / 3 } else { rng.usize_below(3) }
+      } else if calls_so_far.len() >= 12 {
+        0
+      } else {
+        rng.usize_below(5)
+      };
       let mut calls = vec![];
-      for _ in 0..n_calls {
-        let c = gen_call(&mut rng, &text, ascii, &calls_so_far);
+      for k in 0..n_calls {
+        let mut c = gen_call(&mut rng, &text, ascii, &calls_so_far);
+        if many {
+          let (a, z) = *rng.pick(&key_pool);
+          c.start = a;
+          c.end = z;
+          c.content = format!("<{}>", calls_so_far.len());
+          if rng.chance(700) {
+            c.enforce = None;
+          }
+          let _ = k;
+        }
         calls_so_far.push(c.clone());
         calls.push(c);
       }
